@@ -640,7 +640,9 @@ func (k *Key) UnmarshalCBOR(data []byte) error {
 			case int64:
 				if (k.Type == KeyTypeEC2 || k.Type == KeyTypeOKP) &&
 					(lbl == KeyLabelEC2Curve || lbl == KeyLabelOKPCurve) {
-					v = Curve(v.(int64))
+					if crv, ok := v.(int64); ok {
+						v = Curve(crv)
+					}
 				}
 				k.Params[lbl] = v
 			case string:
